@@ -1681,6 +1681,10 @@ def _as_arr(x, dtype=None, copy=True):
             kinds.add(_scalar_kind(v))
         kind = "f" if "f" in kinds or not kinds else ("i" if "i" in kinds or "u" in kinds else "b")
         return from_values(list(x), kind)
+    elif hasattr(x, "__pyvc_raw__") and dtype is None:
+        # np.array(carrier) without a dtype: an array of the carrier's own (unknown) element type; the
+        # one thing the normalisation may do with it is .astype(float64)
+        return x.__pyvc_raw__()
     elif hasattr(x, "__pyvc_array__"):
         a = x.__pyvc_array__()
         if copy:
